@@ -302,4 +302,9 @@ def trace_calls(
         yield
     finally:
         sys.setprofile(old_trace)
-        logger.flush()
+        try:
+            logger.flush()
+        except Exception:
+            # like a failure while collecting a trace, a failing logger must not
+            # replace the traced program's own result or exception
+            logging.getLogger(__name__).exception("Failed flushing traces")
